@@ -847,6 +847,12 @@ def c03_r4(ctx):
     names = ret[0][2]["kind"]["fields"]
     leaves_v = frozenset(f.vars_of_operand(ret[0][2]["ops"][names.index("leaves")]))
     nodes_v = frozenset(f.vars_of_operand(ret[0][2]["ops"][names.index("nodes")]))
+    def is_range_loop(lp):
+        return bool(lp["iter"]) and all(o[0][0] == "agg" and o[0][4].endswith("Range::Range") for o in lp["iter"])
+    if not is_range_loop(outer):
+        # wiring written over iterators / side vectors instead of the two index loops: the
+        # rule reads positions off index expressions and has nothing to read here
+        raise AnalysisError("idiom not recognised: the channels in %s are not wired by index loops over the node table" % f.id)
     if not range_over_len(outer, lambda a: frozenset(f.vars_of_operand(a)) == nodes_v):
         ctx.viol((f.id, "outer-range"), "the outer wiring loop is not 0..nodes.len()", f.where(outer["header"]))
     oe = frozenset(outer["elem"])
